@@ -8,6 +8,7 @@ import PdbModel.Level
 import PdbModel.DriverC12
 import PdbModel.DriverC08
 import PdbModel.DriverC09
+import PdbModel.DriverC11
 namespace PdbModel
 
 def parseLevels (t : String) : Option (List ErrorLevel) :=
@@ -41,6 +42,7 @@ def handle (line : String) : String :=
   | "c12" :: rest => (handleC12 rest).getD "BAD-REQUEST"
   | "c08" :: rest => (handleC08 rest).getD "BAD-REQUEST"
   | "c09" :: rest => (handleC09 rest).getD "BAD-REQUEST"
+  | "c11" :: rest => (handleC11 rest).getD "BAD-REQUEST"
   | _ => "BAD-REQUEST"
 
 end PdbModel
